@@ -81,6 +81,10 @@ def cli(d: Path, argv: list[str]) -> tuple[int, str, str]:
     return core.refurb_cli([*argv, "--enable-all", "--quiet"], cwd=d)
 
 
+def joint_lines(out: str) -> list[str]:
+    return [l for l in out.split("\n") if core.DIAG_RE.match(l)]
+
+
 def in_process(d: Path, plan: list[dict[str, Any]], tag: str) -> list[str]:
     (d / f"_plan_{tag}.json").write_text(json.dumps(plan))
     (d / "_worker.py").write_text(WORKER)
@@ -227,6 +231,50 @@ def run(ctx) -> None:
                         {"cwd_files": {n: body for n in ts}, "argv_reference": [*orders[0], "--sort", by], "argv": [*o, "--sort", by], "reference": first[1][:600], "observed": out[1][:600], "how": "write the files into an empty directory and run python -m refurb with both argument orders"},
                     )
                     break
+
+        # ---- an awkward set: a file whose traversal is cut short (refurb suppresses the RecursionError of a very long expression,
+        # issue #302) AFTER a diagnostic was found, and files with the same name in sibling directories (no __init__.py):
+        # one by one, together, and together in other orders — each file's diagnostics are its own and the same every time
+        aw = d / "awkward"
+        deep = "u = int(0)\nw = " + " + ".join(["1"] * 700) + "\nv = list()\n"
+        aw_files = {"first.py": 'x = int(0)\ny = list()\n', "deep.py": deep, "left/util.py": 'x = bool(True)\n', "right/util.py": 'y = str("")\nz = int(0)\n',
+                    "last.py": 'print("")\n', "sp ace.py": "q = list()\n"}
+        # expressions of a size where only PART of the file is traversed before the limit is hit (the window depends on the frames per term)
+        for terms in (240, 265, 290, 315):
+            aw_files[f"part{terms}.py"] = "u = int(0)\nw = " + " + ".join(["1"] * terms) + "\nv = list()\n"
+        write_files(aw, aw_files)
+        aw_names = list(aw_files)
+        orders = [aw_names, aw_names[::-1], aw_names[2:] + aw_names[:2], [n for n in aw_names if n.startswith("part")] + [n for n in aw_names if not n.startswith("part")]] + ([] if ctx.quick else [rng.sample(aw_names, len(aw_names)) for _ in range(6)])
+        with ThreadPoolExecutor(12) as ex:
+            solo_f = [ex.submit(cli, aw, [n, "--sort", "filename"]) for n in aw_names]
+            joint_f = [ex.submit(cli, aw, [*o, "--sort", "filename"]) for o in orders]
+            solo = [f.result() for f in solo_f]
+            joint = [f.result() for f in joint_f]
+        how_aw = "write the files into an empty directory with an empty pyproject.toml; run python -m refurb <files> --enable-all --quiet --sort filename"
+        want_lines: list[str] = []
+        aw_ok = True
+        for n, (rc, out, err) in zip(aw_names, solo):
+            res.case(("awkward-solo", n))
+            dg, other = core.parse_plain(out)
+            if err.strip() or other or any(x["file"] != n for x in dg):
+                aw_ok = False
+                res.violate(f"checking {n} on its own does not give a clean report about that file", {"kind": "awkward-solo", "file": n},
+                            {"files": aw_files if n != "deep.py" else {**aw_files, "deep.py": "u = int(0); w = 1 + 1 + ... (700 terms); v = list()"}, "argv": [n], "stdout": out[:600], "stderr": err[-400:], "how": how_aw})
+            want_lines += [l for l in out.split("\n") if core.DIAG_RE.match(l)]
+        for o, (rc, out, err) in zip(orders, joint):
+            res.case(("awkward-joint", tuple(o)))
+            res.bump("awkward_runs")
+            got_lines = [l for l in out.split("\n") if core.DIAG_RE.match(l)]
+            if aw_ok and (sorted(got_lines) != sorted(want_lines) or err.strip() or got_lines != joint_lines(joint[0][1])):
+                extra = sorted(set(got_lines) - set(want_lines))[:4]
+                missing = sorted(set(want_lines) - set(got_lines))[:4]
+                res.violate(
+                    "checking independent files together gives other diagnostics than checking them one by one (or the order of the arguments matters)",
+                    {"kind": "partition", "files": "awkward"},
+                    {"files": {**aw_files, "deep.py": "u = int(0)\\nw = 1 + 1 + ... (700 terms)\\nv = list()\\n"}, "argv": o, "only_together": extra, "only_one_by_one": missing,
+                     "stdout_head": out[:500], "stderr": err[-300:], "how": how_aw},
+                )
+                break
 
         # ---- fresh processes with different string-hash seeds: nothing in a report (positions, order, message TEXT) may depend on
         # the iteration order of a set or dict keyed by strings; the file collects idioms where a check MERGES several operands
